@@ -452,6 +452,43 @@ def proj_rec(R, r):
             "sid": iv(r.server_id) if r.server_id is not False else 0}
 
 
+def _srv_name(name):
+    # "Server 2 at Node 1"
+    parts = str(name).split()
+    try:
+        return int(parts[-1]), int(parts[1])
+    except Exception:
+        return 0, 0
+
+
+def proj_digraph(Q):
+    det = Q.deadlock_detector
+    g = getattr(det, "statedigraph", None)
+    if g is None:
+        return []
+    out = []
+    for a, b in g.edges():
+        n1, s1 = _srv_name(a)
+        n2, s2 = _srv_name(b)
+        out.append([n1, s1, n2, s2])
+    return sorted(out)
+
+
+def enc_tracker_state(name, st):
+    """structured encoding <<a, b, m>> of a tracker's hashed state"""
+    if name == "StateTracker" or st is None:
+        return [[], [], []]
+    if name == "SystemPopulation":
+        return [[int(st)], [], []]
+    if name in ("NodePopulation", "NodePopulationSubset", "GroupedNodePopulation"):
+        return [[int(v) for v in st], [], []]
+    if name in ("NodeClassMatrix", "NaiveBlocking"):
+        return [[], [[int(v) for v in row] for row in st], []]
+    if name == "MatrixBlocking":
+        return [[int(v) for v in st[-1]], [], [[[int(v) for v in cell] for cell in row] for row in st[0]]]
+    return [[], [], []]
+
+
 def proj_tracker(R):
     trk = R.Q.statetracker
     st = getattr(trk, "state", None)
@@ -504,6 +541,7 @@ def project(R):
           "exit": [i.id_number for i in ex.all_individuals],
           "unchecked": bool(Q.unchecked_blockage),
           "trk": proj_tracker(R),
+          "dg": proj_digraph(Q),
           }
     return st
 
